@@ -16,6 +16,25 @@ Section WF.
     match rev (map fst fields) with last :: _ => has_star last | [] => false end.
   Definition bound (n : bytes) : bool := match lookup n env with Some _ => true | None => false end.
 
+  (* member names pairwise different *)
+  Fixpoint nodupb (l : list bytes) : bool :=
+    match l with [] => true | x :: r => negb (existsb (list_eqb x) r) && nodupb r end.
+  (* a named tuple: names pairwise different; no '*' except in the last name, which then is prefix ++ "*" with a star-free prefix
+     that starts no other member name *)
+  Definition tuple_okb (fields : list (bytes * ty)) : bool :=
+    let names := map fst fields in
+    nodupb names && negb (existsb has_star (removelast names))
+    && match rev fields with
+       | [] => true
+       | (k, _) :: _ =>
+           if has_star k then
+             match rev k with
+             | 42 :: rp => negb (has_star (rev rp)) && forallb (fun k' => negb (is_prefix (rev rp) k')) (removelast names)
+             | _ => false
+             end
+           else true
+       end.
+
   Fixpoint wf (t : ty) : bool :=
     match t with
     | TRef n => bound n
@@ -25,10 +44,11 @@ Section WF.
     | TPayloadMap k v => wf k && wf v
     | TUnion alts | TUnionHMO alts => (fix all (l : list ty) : bool := match l with [] => true | a :: r => wf a && all r end) alts
     | TTuple fields =>
-        negb (existsb has_star (removelast (map fst fields)))
+        tuple_okb fields
         && (fix all (l : list (bytes * ty)) : bool := match l with [] => true | a :: r => wf (snd a) && all r end) fields
     | TKeyValue m _ | TKVTuple m =>
-        (fix all (l : list (bytes * Z * ty)) : bool := match l with [] => true | a :: r => wf (snd a) && all r end) m
+        nodupb (map key_name m)
+        && (fix all (l : list (bytes * Z * ty)) : bool := match l with [] => true | a :: r => wf (snd a) && all r end) m
     | TKVUnnamed pairs =>
         (fix all (l : list (ty * ty)) : bool := match l with [] => true | a :: r => wf (fst a) && wf (snd a) && all r end) pairs
     | _ => true
@@ -55,9 +75,15 @@ Section WF.
   Lemma wf_hmo alts i t : wf (TUnionHMO alts) = true -> nth_error alts i = Some t -> wf t = true.
   Proof. cbn [wf]. intros H Hn. exact (all_nth wf alts i t H Hn). Qed.
   Lemma wf_kv m emb i e : wf (TKeyValue m emb) = true -> nth_error m i = Some e -> wf (key_ty e) = true.
-  Proof. cbn [wf]. intros H Hn. exact (all_nth (fun a => wf (snd a)) m i e H Hn). Qed.
+  Proof. cbn [wf]. intros H Hn. apply andb_prop in H. destruct H as [_ H]. exact (all_nth (fun a => wf (snd a)) m i e H Hn). Qed.
   Lemma wf_kvt m i e : wf (TKVTuple m) = true -> nth_error m i = Some e -> wf (key_ty e) = true.
-  Proof. cbn [wf]. intros H Hn. exact (all_nth (fun a => wf (snd a)) m i e H Hn). Qed.
+  Proof. cbn [wf]. intros H Hn. apply andb_prop in H. destruct H as [_ H]. exact (all_nth (fun a => wf (snd a)) m i e H Hn). Qed.
+  Lemma wf_kv_names m emb : wf (TKeyValue m emb) = true -> nodupb (map key_name m) = true.
+  Proof. cbn [wf]. intros H. apply andb_prop in H. exact (proj1 H). Qed.
+  Lemma wf_kvt_names m : wf (TKVTuple m) = true -> nodupb (map key_name m) = true.
+  Proof. cbn [wf]. intros H. apply andb_prop in H. exact (proj1 H). Qed.
+  Lemma wf_tuple_okb fields : wf (TTuple fields) = true -> tuple_okb fields = true.
+  Proof. cbn [wf]. intros H. apply andb_prop in H. exact (proj1 H). Qed.
   Lemma wf_kvu pairs i kt vt : wf (TKVUnnamed pairs) = true -> nth_error pairs i = Some (kt, vt) -> wf kt = true /\ wf vt = true.
   Proof.
     cbn [wf]. intros H Hn. pose proof (all_nth (fun a => wf (fst a) && wf (snd a)) pairs i (kt, vt)) as G.
@@ -69,7 +95,10 @@ Section WF.
   Lemma wf_tuple_field fields i k t : wf (TTuple fields) = true -> nth_error fields i = Some (k, t) -> wf t = true.
   Proof. cbn [wf]. intros H Hn. apply andb_prop in H. destruct H as [_ H]. exact (all_nth (fun a => wf (snd a)) fields i (k, t) H Hn). Qed.
   Lemma wf_tuple_nostar fields : wf (TTuple fields) = true -> existsb has_star (removelast (map fst fields)) = false.
-  Proof. cbn [wf]. intros H. apply andb_prop in H. destruct H as [H _]. destruct (existsb _ _); [discriminate|reflexivity]. Qed.
+  Proof.
+    intros H. apply wf_tuple_okb in H. unfold tuple_okb in H. apply andb_prop in H. destruct H as [H _]. apply andb_prop in H. destruct H as [_ H].
+    destruct (existsb _ _); [discriminate|reflexivity].
+  Qed.
 
   (* position i of a tuple's value list is displayable: it has a field type and a key *)
   Definition tuple_pos_ok (fields : list (bytes * ty)) (i : nat) (ft : ty) : Prop :=
